@@ -294,6 +294,12 @@ func (group *Group) broadcastByRtmpMsg(msg base.RtmpMsg) {
 			}
 			session.ShouldWaitVideoKeyFrame = false
 		}
+
+		// 还在等关键帧的session，这期间上行发来的metadata和seq header依然要发给它，
+		// 否则等到关键帧时，它手里的头可能是旧的（比如上行中途更换了sps，或者上行重新推流）
+		if session.ShouldWaitVideoKeyFrame && isRtmpMsgHeaderInfo(msg) {
+			_ = session.Write(lazyRtmpChunkDivider.GetEnsureWithoutSdf())
+		}
 	} // for loop iterate rtmpSubSessionSet
 
 	// ## 转发本次数据
@@ -366,6 +372,9 @@ func (group *Group) broadcastByRtmpMsg(msg base.RtmpMsg) {
 			if msg.IsVideoKeyNalu() {
 				session.Write(lazyRtmpMsg2FlvTag.GetEnsureWithoutSdf())
 				session.ShouldWaitVideoKeyFrame = false
+			} else if isRtmpMsgHeaderInfo(msg) {
+				// 同rtmp sub session，等关键帧期间依然需要最新的头
+				session.Write(lazyRtmpMsg2FlvTag.GetEnsureWithoutSdf())
 			}
 		} else {
 			session.Write(lazyRtmpMsg2FlvTag.GetEnsureWithoutSdf())
@@ -562,6 +571,19 @@ func (group *Group) feedTsPackets(tsPackets []byte, frame *mpegts.Frame, boundar
 }
 
 // ---------------------------------------------------------------------------------------------------------------------
+
+// isRtmpMsgHeaderInfo metadata，video seq header，aac seq header
+func isRtmpMsgHeaderInfo(msg base.RtmpMsg) bool {
+	switch msg.Header.MsgTypeId {
+	case base.RtmpTypeIdMetadata:
+		return true
+	case base.RtmpTypeIdVideo:
+		return len(msg.Payload) > 1 && msg.IsVideoKeySeqHeader()
+	case base.RtmpTypeIdAudio:
+		return len(msg.Payload) > 1 && msg.IsAacSeqHeader()
+	}
+	return false
+}
 
 func (group *Group) write2RtmpSubSessions(b []byte) {
 	for session := range group.rtmpSubSessionSet {
